@@ -560,9 +560,9 @@ impl Duration {
             && !hours_to_days_may_occur
             && self.minutes().abs() < 60.0
             && self.seconds().abs() < 60.0
-            && self.milliseconds() < 1000.0
-            && self.microseconds() < 1000.0
-            && self.nanoseconds() < 1000.0
+            && self.milliseconds().abs() < 1000.0
+            && self.microseconds().abs() < 1000.0
+            && self.nanoseconds().abs() < 1000.0
         {
             // a. NOTE: The above conditions mean that the operation will have no effect: the
             // smallest unit and rounding increment will leave the total duration unchanged,
